@@ -39,6 +39,9 @@ Record rep (P : Z -> Prop) (st : bool) (n0 : nat) (done : list d4token) (b : bst
   rp_empty : bs_idx b = [] -> ls_g (bs_ls b) = sg_empty;
   (* a node that is not declared is a literal leaf or an expansion And *)
   rp_class : forall y t, sg_label (ls_g (bs_ls b)) y = Some t -> In y (bs_idx b) \/ is_litk t \/ t = GAnd;
+  (* the occurrence table *)
+  rp_occ : forall f, In f (bs_occ b) <-> exists from to fs, In (DEdge from to fs) done /\ In f (map Z.abs_nat fs);
+  rp_lits : forall k z, lookupZ (ls_lits (bs_ls b)) k = Some z -> In (Z.abs_nat k) (bs_occ b);
   (* an and node that is not declared is the expansion of a labelled edge *)
   rp_exp : forall y, sg_label (ls_g (bs_ls b)) y = Some GAnd -> ~ In y (bs_idx b) ->
            exists i e tx, In e (d4_edges_from done i) /\ fst e <> [] /\ 1 <= snd e /\
@@ -130,7 +133,7 @@ Lemma rep_decl n0 done b t k : rep P st n0 done b -> d4_kind t = [k] -> d4_token
 Proof.
   intros HR Hk Hmax Hne. unfold decl.
   destruct (add_node rc (tid_of_kind k) (ls_g (bs_ls b))) as [x g'] eqn:Ha.
-  pose proof HR as [[HI Hl Hp Hinj Hsr] Htri Hnd Hdecl Hedges Hrange Htot Hfirst Hempty Hclass Hexp].
+  pose proof HR as [[HI Hl Hp Hinj Hsr] Htri Hnd Hdecl Hedges Hrange Htot Hfirst Hempty Hclass Hocc Hlits Hexp].
   pose proof (add_node_ext rc _ _ _ _ [] HI Ha) as He.
   pose proof (add_node_fresh rc _ _ _ _ HI Ha) as Hfresh.
   pose proof (add_node_label_new rc _ _ _ _ HI Ha) as Hlx.
@@ -178,6 +181,10 @@ Proof.
   - intros y ty Hy. destruct (add_node_label_cases rc _ _ _ _ _ _ Ha Hy) as [[-> _]|[_ H0]].
     + left. apply in_or_app. right. now left.
     + destruct (Hclass y ty H0) as [H1|H1]; [left; apply in_or_app; now left|now right].
+  - intros f. rewrite Hocc. split; intros [from [to [fs [Hin Hf]]]]; exists from, to, fs; (split; [|exact Hf]).
+    + apply in_or_app. now left.
+    + apply in_app_or in Hin. destruct Hin as [Hin|[E|[]]]; [exact Hin|]. subst t. cbn in Hk. discriminate.
+  - exact Hlits.
   - intros y Hy Hny. destruct (add_node_label_cases rc _ _ _ _ _ _ Ha Hy) as [[-> _]|[Hyx H0]].
     + exfalso. apply Hny. apply in_or_app. right. now left.
     + destruct (Hexp y H0) as [i [e [tx [He1 [He2 [He3 [He4 He5]]]]]]]; [intros Hin; apply Hny; apply in_or_app; now left|].
@@ -338,6 +345,41 @@ Proof.
   exact (IH _ _ H (ls_add_edge_mono _ _ _ _ _ _ E1 Hz)).
 Qed.
 
+Lemma ls_add_edge_lits a b s s' : ls_add_edge a b s = Some s' -> ls_lits s' = ls_lits s.
+Proof.
+  unfold ls_add_edge. destruct (add_edge a b (ls_g s)) as [g'|]; [|discriminate]. intros H. now injection H as <-.
+Qed.
+Lemma add_edges_to_lits an : forall bs s s', add_edges_to an bs s = Some s' -> ls_lits s' = ls_lits s.
+Proof.
+  induction bs as [|b r IH]; intros s s' H; cbn [add_edges_to] in H; [now injection H as <-|].
+  destruct (ls_add_edge an b s) as [s1|] eqn:E1; [|discriminate]. rewrite (IH _ _ H). exact (ls_add_edge_lits _ _ _ _ E1).
+Qed.
+Lemma get_lits_keys : forall ls s lns s', get_lits rc ls s = (lns, s') ->
+  forall k z, lookupZ (ls_lits s') k = Some z -> (exists z', lookupZ (ls_lits s) k = Some z') \/ In k ls.
+Proof.
+  induction ls as [|l r IH]; intros s lns s' H k z Hk; cbn [get_lits] in H.
+  - injection H as <- <-. left. now exists z.
+  - destruct (get_lit rc l s) as [x s1] eqn:E1. destruct (get_lits rc r s1) as [xs s2] eqn:E2.
+    injection H as <- <-. destruct (IH _ _ _ E2 k z Hk) as [[z' Hz']|Hin]; [|right; now right].
+    unfold get_lit in E1. destruct (lookupZ (ls_lits s) l) as [x0|] eqn:El.
+    + injection E1 as <- <-. left. now exists z'.
+    + destruct (add_node rc (GLit l) (ls_g s)) as [x1 g1]. injection E1 as <- <-. cbn [ls_lits] in Hz'.
+      rewrite lookupZ_cons in Hz'. destruct (Z.eqb_spec l k) as [->|Hne]; [right; now left|left; now exists z'].
+Qed.
+Lemma resolve_keys a c fs s1 s2 : resolve_weighted_edge rc a c fs s1 = Some s2 ->
+  forall k z, lookupZ (ls_lits s2) k = Some z -> (exists z', lookupZ (ls_lits s1) k = Some z') \/ In k fs.
+Proof.
+  intros H k z Hk. unfold resolve_weighted_edge in H.
+  destruct (get_lits rc fs s1) as [lns s1'] eqn:El.
+  destruct lns as [|ln0 lns'].
+  - injection H as <-. exact (get_lits_keys _ _ _ _ El k z Hk).
+  - destruct (add_node rc GAnd (ls_g s1')) as [an g2] eqn:Ha.
+    destruct (ls_add_edge a an (with_g s1' (remove_edge a c g2))) as [s3|] eqn:E3; [|discriminate].
+    destruct (add_edges_to an (ln0 :: lns') s3) as [s4|] eqn:E4; [|discriminate].
+    rewrite (ls_add_edge_lits _ _ _ _ H), (add_edges_to_lits _ _ _ _ E4), (ls_add_edge_lits _ _ _ _ E3) in Hk.
+    cbn [with_g ls_lits] in Hk. exact (get_lits_keys _ _ _ _ El k z Hk).
+Qed.
+
 (* a new and node of an edge line is the new child of the source *)
 Lemma resolve_S_and a c fs s1 s2 : resolve_weighted_edge rc a c fs s1 = Some s2 ->
   forall y, sg_label (ls_g s2) y = Some GAnd -> sg_label (ls_g s1) y = Some GAnd \/ In y (sg_out (ls_g s2) a).
@@ -394,7 +436,7 @@ Proof.
   destruct (ls_add_edge a c (bs_ls b)) as [s1|] eqn:E1; [|discriminate].
   destruct (resolve_weighted_edge rc a c fs s1) as [s2|] eqn:E2; [|discriminate].
   injection H as <-.
-  pose proof HR as [Hc Htri Hnd Hdecl Hedges Hrange Htot Hfirst Hempty Hclass Hexp].
+  pose proof HR as [Hc Htri Hnd Hdecl Hedges Hrange Htot Hfirst Hempty Hclass Hocc Hlits Hexp].
   assert (Hga : st = true -> gate_at (ls_g (bs_ls b)) a).
   { intros Hst. destruct (Hgf Hst) as [k [Hk Hkg]].
     unfold idx_get in Ea. destruct (0 <? from)%Z; [|discriminate].
@@ -442,6 +484,16 @@ Proof.
   - intros E. rewrite E in Hfa. destruct (Z.to_nat from - 1); discriminate.
   - intros z tz Hz. destruct (resolve_S _ _ _ _ _ E2 z tz Hz) as [H1|H1]; [|now right].
     rewrite (proj1 (ls_add_edge_S _ _ _ _ E1) z) in H1. now apply Hclass.
+  - intros f. rewrite in_app_iff, Hocc. split.
+    + intros [Hf|[from' [to' [fs' [Hin Hf]]]]].
+      * exists from, to, fs. split; [apply in_or_app; right; now left|exact Hf].
+      * exists from', to', fs'. split; [apply in_or_app; now left|exact Hf].
+    + intros [from' [to' [fs' [Hin Hf]]]]. apply in_app_or in Hin. destruct Hin as [Hin|[E|[]]].
+      * right. now exists from', to', fs'.
+      * injection E as <- <- <-. now left.
+  - intros k z Hk. apply in_or_app. destruct (resolve_keys _ _ _ _ _ E2 k z Hk) as [[z' Hz']|Hin].
+    + right. rewrite (ls_add_edge_lits _ _ _ _ E1) in Hz'. exact (Hlits k z' Hz').
+    + left. apply in_map_iff. now exists k.
   - intros z Hz Hzn.
     assert (Hold : sg_label (ls_g (bs_ls b)) z = Some GAnd ->
                    exists i e tx, In e (d4_edges_from (done ++ [DEdge from to fs]) i) /\ fst e <> [] /\ 1 <= snd e /\
@@ -503,6 +555,8 @@ Proof.
   - intros x Hx. discriminate.
   - reflexivity.
   - intros y t Hy. unfold sg_label in Hy. cbn in Hy. destruct y; discriminate.
+  - intros f. cbn. split; [intros []|intros [from [to [fs [[] _]]]]].
+  - intros k z Hk. discriminate.
   - intros y Hy. unfold sg_label in Hy. cbn in Hy. destruct y; discriminate.
 Qed.
 End Parse.
